@@ -36,6 +36,9 @@ pub struct WireState {
     /// slow flush: a flush completes this long after it was first polled (the bytes are already visible to the peer)
     pub flush_delay: Option<std::time::Duration>,
     pub flush_ready_at: Option<tokio::time::Instant>,
+    /// slow shutdown: a shutdown completes this long after it was first polled
+    pub shutdown_delay: Option<std::time::Duration>,
+    pub shutdown_ready_at: Option<tokio::time::Instant>,
 }
 
 pub struct RecWriter(pub Arc<Mutex<WireState>>);
@@ -91,8 +94,17 @@ impl AsyncWrite for RecWriter {
         w.flushes += 1;
         Poll::Ready(Ok(()))
     }
-    fn poll_shutdown(self: Pin<&mut Self>, _cx: &mut Context<'_>) -> Poll<std::io::Result<()>> {
+    fn poll_shutdown(self: Pin<&mut Self>, cx: &mut Context<'_>) -> Poll<std::io::Result<()>> {
         let mut w = self.0.lock().unwrap();
+        if let Some(d) = w.shutdown_delay {
+            let now = tokio::time::Instant::now();
+            let at = *w.shutdown_ready_at.get_or_insert(now + d);
+            if now < at {
+                let waker = cx.waker().clone();
+                tokio::spawn(async move { tokio::time::sleep_until(at).await; waker.wake(); });
+                return Poll::Pending;
+            }
+        }
         w.shutdown = true;
         Poll::Ready(Ok(()))
     }
